@@ -33,6 +33,21 @@ fn run_vec(id: String, vec: Vec<Term>) -> Value {
     }
 }
 
+/// long vectors: 2^k / 3^k items cannot be enumerated, but the first ones can - and k crosses every machine-word boundary
+fn run_long(id: String, vec: Vec<Term>, take: usize) -> Value {
+    let v2 = vec.clone();
+    let out = guarded(30, move || {
+        let two: Vec<Vec<usize>> = TwoValuedInterpretationsIterator::new(&v2).take(take).map(|x| x.iter().map(|t| t.value()).collect()).collect();
+        let three: Vec<Vec<usize>> = ThreeValuedInterpretationsIterator::new(&v2).take(take).map(|x| x.iter().map(|t| t.value()).collect()).collect();
+        (two, three)
+    });
+    let raw: Vec<usize> = vec.iter().map(|t| t.value()).collect();
+    match out {
+        Outcome::Ok((two, three)) => json!({"kind": "iterlong", "id": id, "vec": raw, "st": "ok", "take": take, "two": two, "three": three}),
+        o => json!({"kind": "iterlong", "id": id, "vec": raw, "st": o.status(), "take": take, "two": [], "three": []}),
+    }
+}
+
 pub fn main(args: &[String]) {
     let mut tier = "quick".to_string();
     let mut out = String::new();
@@ -76,6 +91,18 @@ pub fn main(args: &[String]) {
         }
         writeln!(f, "{}", run_vec(format!("r{}", k), v)).unwrap();
         count += 1;
+    }
+    for (j, k_und) in [12usize, 20, 21, 31, 32, 33, 40, 41, 42, 63, 64, 65, 81, 130].iter().enumerate() {
+        for rep in 0..(if tier == "thorough" { 6 } else { 2 }) {
+            // k undecided positions mixed with a few decided ones
+            let mut v: Vec<Term> = (0..*k_und).map(|i| Term(2 + i + rng.gen_range(0..3) * 200)).collect();
+            for _ in 0..rng.gen_range(0..4) {
+                let at = rng.gen_range(0..=v.len());
+                v.insert(at, Term(rng.gen_range(0..2)));
+            }
+            writeln!(f, "{}", run_long(format!("L{}_{}", j, rep), v, 40)).unwrap();
+            count += 1;
+        }
     }
     f.flush().unwrap();
     eprintln!("iter: {} vectors", count);
